@@ -17,7 +17,7 @@ def edit_mutation(draw, base: bytes, inset: bytes, nearset: bytes = b"", max_edi
     kinds = []
     nedits = draw(st.integers(1, max_edits))
     for _ in range(nedits):
-        kind = draw(st.sampled_from(["sub", "ins", "del", "swap", "trunc", "ext", "bit"]))
+        kind = draw(st.sampled_from(["sub", "ins", "del", "swap", "trunc", "ext", "bit", "alias"]))
         pool = draw(st.sampled_from(["in", "near", "any"]))
         if pool == "in" or (pool == "near" and not nearset):
             ch = draw(st.sampled_from(list(inset)))
@@ -25,7 +25,19 @@ def edit_mutation(draw, base: bytes, inset: bytes, nearset: bytes = b"", max_edi
             ch = draw(st.sampled_from(list(nearset)))
         else:
             ch = draw(st.integers(0, 255))
-        if kind == "sub" and s:
+        if kind == "alias" and s:
+            # a character replaced by the raw byte whose VALUE is that character's digit value (or digit value + 128):
+            # the same number to a table-driven decoder that forgets to reject bytes outside its table
+            i = draw(st.integers(0, len(s) - 1))
+            if s[i] in inset:
+                v = inset.index(s[i]) + (128 if draw(st.integers(0, 4)) == 0 else 0)
+                if v != s[i]:
+                    s[i] = v
+                else:
+                    continue
+            else:
+                continue
+        elif kind == "sub" and s:
             i = draw(st.integers(0, len(s) - 1))
             s[i] = ch
         elif kind == "ins":
